@@ -244,7 +244,8 @@ PROPS['C11'] = Prop(
     technique='contract-based deductive verification of _handle_deprecated_rule (own VC generator + z3) + complete enumeration of the table through load_rules/enforce',
     explanation='PROVED for all inputs: _handle_deprecated_rule returns the old-name override unless it is the alias or a '
                 'new-name override exists, else a FRESH Or[new, old] only when enforce_new_defaults is off and the check '
-                'strings differ, else the new default; it writes no pre-existing object. ENUMERATED COMPLETELY: the '
+                'strings differ, else the new default; it writes no pre-existing object. _record_file_rules keeps the record of file-defined names that this decision reads: '
+                'rebuilt in overwrite mode, extended in update mode, one fresh RuleDefault per name of the file, nothing else written. ENUMERATED COMPLETELY: the '
                 'documented table (5120 rows incl. two new policies sharing one predecessor, override in main file or '
                 'directory) through the real load and enforce.',
     assumptions=COMMON_ASSUME + ['str(check) is pr(check)', 'an old-name override textually equal to the deprecated default is left unconstrained'],
@@ -258,7 +259,8 @@ PROPS['C12'] = Prop(
     technique='contract-based frame obligations on the merging function (own VC generator + z3) + bounded interleavings for idempotence',
     explanation='PROVED: _handle_deprecated_rule writes nothing that existed before the call (frame obligation on every '
                 'heap write) and the merged Or node and its operand list are freshly allocated with exactly two operands; '
-                'add_check appends in place to exactly its own list (so calling it on a default\'s check is a visible '
+                '_record_file_rules and _load_policy_file touch only the enforcer\'s own rule store and file record (the '
+                'registry and the objects in it are untouched: frame obligations); add_check appends in place to exactly its own list (so calling it on a default\'s check is a visible '
                 'write); register_default stores a fresh deep copy (relative to the trusted contract of copy.deepcopy), '
                 'never the caller\'s object, and writes nothing else. BOUNDED: k loads versus one load across up to three enforcers sharing default objects, with '
                 'snapshots of the shared objects.',
@@ -272,7 +274,8 @@ PROPS['C20'] = Prop(
     technique='contract-based sufficient condition (single publication of the rule store, discharged for set_rules) + replayed schedules: one preemption at every source-line boundary of a reload',
     explanation='Contracts have no schedule quantifier. What is PROVED is a sequential sufficient condition on set_rules: '
                 'in overwrite mode the shared store is replaced by one assignment of a finished Rules object and no '
-                'published store is written in place. The same condition does NOT hold for load_rules as a whole (known '
+                'published store is written in place. _load_policy_file records the file\'s names before it publishes the new store and touches nothing when the file '
+                'is not applied. The same condition does NOT hold for load_rules as a whole (known '
                 'finding: directories are merged in place and defaults are added one by one). REPLAYED SCHEDULES '
                 '(bounded): the reload is stopped at every line boundary inside the library and a complete enforce() '
                 'runs on the same enforcer; a decision that matches neither the old nor the new policy is a violation, '
@@ -334,11 +337,13 @@ PROPS['C17'] = Prop(
 )
 
 PROPS['C18'] = Prop(
-    functions=['generator:_format_rule_line'],
+    functions=['generator:_format_rule_line', 'policy:RuleDefault.__eq__'],
     bounded=[('bounded.tools', 'c18')],
     level='other',
     technique='contract-based deductive verification (own VC generator + z3) of the rule-line emitter shared by the converter and the generator; the map-level behaviour of the tools (upgrade, convert, list-redundant) is decided by a labelled bounded stand-in',
-    explanation='PROVED for all inputs: _format_rule_line returns exactly jdumps(name) + ": " + jdumps(check_str). BOUNDED: '
+    explanation='PROVED for all inputs: _format_rule_line returns exactly jdumps(name) + ": " + jdumps(check_str); RuleDefault.__eq__ '
+                '(the "file rule equals the registered default" test of list-redundant and of the converter) holds exactly for '
+                'equal names, equal printed checks and related classes. BOUNDED: '
                 'random policy files (string and list-of-lists values, values longer than any folding width) against '
                 'plain/renamed/split/changed default sets through policy-upgrade (yaml and json), convert-json-to-yaml, '
                 'policy-generator and list-redundant; enforcer decisions before and after for every surviving name and '
